@@ -91,6 +91,12 @@ def stopping_games(draw, min_inner=1, max_inner=8, dyadic=None, rewards=REWARD_P
                 succ = list(draw(st.permutations(succ)))
             probs = _dyadic_probs(draw, k, denom) if dyadic else _float_probs(draw, k)
             tr = [(p, ids[t]) for p, t in zip(probs, succ)]
+            if len(tr) < 5 and draw(st.integers(0, 5)) == 0:
+                # an exact duplicate: one edge split into two IDENTICAL (probability, successor) tuples
+                j = draw(st.integers(0, len(tr) - 1))
+                half = (tr[j][0] / 2, tr[j][1])
+                tr[j] = half
+                tr.insert(draw(st.integers(0, len(tr))), half)
         else:
             succ = [draw(st.sampled_from(higher)) for _ in range(k)]
             tr = [(NAMES[i], ids[t]) for i, t in enumerate(succ)]
